@@ -305,7 +305,7 @@ func eachDialAndBadRequest(emit func(xferCase)) {
 			}
 			x := c
 			x.Dial = "tcp"
-			x.Fault = faultSpec{Kind: "cut", K: 2 + len(packEnvelope(c, c.envelopes()[0])) + c.tsigRRLen()}
+			x.Fault = faultSpec{Kind: "cut", K: 2 + len(packEnvelope(c, 0, c.envelopes()[0])) + c.tsigRRLen()}
 			emit(x)
 			for _, b := range []string{"nokey", "badalg", "longlabel"} {
 				if ts == nil && b != "longlabel" {
@@ -544,7 +544,78 @@ func eachKeyRollOver(emit func(xferCase)) {
 	}
 }
 
+// eachQuestionOmitted: a sender other than this library - RFC 5936 2.2.1/2.2.2 requires the question section
+// in the FIRST message of the answer only. Every composition of every short shape (<= 5 records; AXFR and
+// IXFR questions) x every non-empty subset of the later envelopes sent with QDCOUNT 0 x with and without
+// TSIG; a trailer behind the closing SOA (following the same rule) must not be delivered.
+func eachQuestionOmitted(emit func(xferCase)) {
+	for _, sh := range shapes(5) {
+		compositions(len(sh.flat()), func(sizes []int) {
+			for mask := uint32(1); mask < 1<<uint(len(sizes)-1); mask++ {
+				for _, ts := range []*tsigSpec{nil, enumKey} {
+					c := sh
+					c.Sizes, c.Tsig, c.Sender, c.NoQuestion = sizes, ts, "harness", mask
+					c.Trailer = mask%2 == 1
+					if c.Trailer {
+						c.NoQuestion |= 1 << uint(len(sizes)-1) // the trailer is written by the same sender
+					}
+					emit(c)
+				}
+			}
+		})
+	}
+}
+
+// eachTsigSpelling: the sender writes the key name / the algorithm name of its TSIG records in another
+// letter case than the receiver's key set and request (the same domain names): short shapes x three
+// compositions, fault-free, plus - under the other spelling - every envelope in turn signed with a wrong
+// secret (must still be refused).
+func eachTsigSpelling(emit func(xferCase)) {
+	spell := [][2]string{{"XFR-KEY.", ""}, {"Xfr-Key.", ""}, {"", "HMAC-SHA256."}, {"xfr-KEY.", "Hmac-Sha256."}}
+	for _, sh := range shapes(4) {
+		for _, sizes := range someSizes(len(sh.flat())) {
+			for _, sp := range spell {
+				if sp[0] != "" && pbt.Known(knownKeyCase) {
+					pbt.Excluded(knownKeyCase)
+					continue
+				}
+				c := sh
+				c.Sizes, c.Tsig, c.Sender, c.Trailer = sizes, enumKey, "harness", true
+				c.KeyNameSent, c.AlgSent = sp[0], sp[1]
+				emit(c)
+				for j := range sizes {
+					f := c
+					f.Fault = faultSpec{Kind: "wrongkey", Env: j, Val: 2}
+					emit(f)
+				}
+			}
+		}
+	}
+}
+
 func init() {
+	pbt.RegisterEnum(pbt.Enum[xferCase]{Name: "question-only-in-first-envelope", Exhaustive: true, Each: eachQuestionOmitted, Check: checkXfer})
+	pbt.RegisterEnum(pbt.Enum[xferCase]{Name: "tsig-name-spelling", Each: eachTsigSpelling, Check: checkXfer})
+
+	// known finding (round 10): the secret is looked up under the key name of the RECEIVED TSIG letter for
+	// letter; a sender that writes the key name in another letter case (the same domain name; the digest takes
+	// it in canonical form) has its correctly keyed envelopes refused with ErrSecret.
+	pbt.Probe(knownKeyCase, func() error {
+		c := xferCase{Mode: "axfr", Zone: "example.", QID: 4660, Serial: 7, Recs: []recSpec{{T: "A", Owner: "www", V: 1}}, Sizes: []int{2, 1}, Sender: "harness",
+			Tsig: &tsigSpec{KeyName: "one.keys.example.", Alg: dns.HmacSHA256, Secret: []byte("secret-of-the-axfr-key")}, KeyNameSent: "One.Keys.Example."}
+		if why := c.valid(); why != "" {
+			return nil
+		}
+		r, _, err := runHarnessSender(c)
+		if err != nil {
+			return nil // the harness could not run the history: nothing known about the finding
+		}
+		if err := checkComplete(c, r); err != nil {
+			return pbt.Errf("Transfer.TsigSecret = {one.keys.example.}, AXFR requested with that key, envelopes [SOA A] [SOA] signed per RFC 8945 with the TSIG owner written One.Keys.Example.: %v", err)
+		}
+		return nil
+	})
+
 	pbt.RegisterEnum(pbt.Enum[xferCase]{Name: "mac-chain-every-envelope", Exhaustive: true, Each: eachChainFault, Check: checkXfer})
 	pbt.RegisterEnum(pbt.Enum[xferCase]{Name: "key-roll-over", Each: eachKeyRollOver, Check: checkXfer})
 	pbt.RegisterEnum(pbt.Enum[xferCase]{Name: "record-types", Each: eachRecordType, Check: checkXfer})
